@@ -1545,6 +1545,20 @@ Proof.
   - auto.
 Qed.
 
+Lemma step_stop y t s y' : G y t -> step m y (AStop s) = Some y' -> steps_ok y t y'.
+Proof.
+  intros HG Hs. cbv beta iota zeta delta [step] in Hs. fold c in Hs.
+  destruct ((s <? nsrc c) && plug (Src y s)); [|discriminate]. inversion Hs; subst y'.
+  exists []. split; [reflexivity|]. split; [reflexivity|]. exact HG.
+Qed.
+
+Lemma stepX_stop y t s y' : X y t -> step m y (AStop s) = Some y' -> stepsX y t y'.
+Proof.
+  intros HX Hs. cbv beta iota zeta delta [step] in Hs. fold c in Hs.
+  destruct ((s <? nsrc c) && plug (Src y s)); [|discriminate]. inversion Hs; subst y'.
+  exists []. split; [reflexivity|exact HX].
+Qed.
+
 (* ---------- putting the two invariants together ---------- *)
 Lemma drain_from_X y t s : X y t -> drain_cond y t s.
 Proof.
@@ -1562,11 +1576,11 @@ Proof.
   assert (H1 : steps_ok y t y').
   { destruct a; [eapply step_read|eapply step_ack|eapply step_timer|eapply step_flush|eapply step_writedone
                 |eapply step_callback|eapply step_deliver|eapply step_tdbegin|eapply step_tdwaited
-                |eapply step_tdcancel|eapply step_tddown|eapply step_hold]; eauto. apply drain_from_X. exact HX. }
+                |eapply step_tdcancel|eapply step_tddown|eapply step_hold|eapply step_stop]; eauto. apply drain_from_X. exact HX. }
   assert (H2 : stepsX y t y').
   { destruct a; [eapply stepX_read|eapply stepX_ack|eapply stepX_timer|eapply stepX_flush|eapply stepX_writedone
                 |eapply stepX_callback|eapply stepX_deliver|eapply stepX_tdbegin|eapply stepX_tdwaited
-                |eapply stepX_tdcancel|eapply stepX_tddown|eapply stepX_hold]; eauto. }
+                |eapply stepX_tdcancel|eapply stepX_tddown|eapply stepX_hold|eapply stepX_stop]; eauto. }
   destruct H1 as (es & E1 & Ha & HG'). destruct H2 as (es' & E2 & HX').
   assert (es' = es).
   { rewrite E1 in E2. apply app_inv_tail in E2. rewrite <- (rev_involutive es), <- (rev_involutive es'), E2. reflexivity. }
